@@ -2,7 +2,7 @@ SPECIFICATION Spec
 CONSTANTS
   Jobs = {"j1", "j2", "j3", "j4"}
   Waiters = {"w1", "w2"}
-  Kinds = {"ok", "error", "panic"}
+  Kinds = {"ok", "error", "panic", "eof", "canceled", "deadline"}
   Modes = {"gate", "ctx"}
   Comps = {"pool", "hpool"}
   Workers = {1, 2, 3}
